@@ -326,6 +326,9 @@ func getSubjectHierarchyMap(policies [][]string) (map[string]int, error) {
 				break
 			}
 			sz := queue.Len()
+			// a subject reachable along several paths of the same length is queued once per
+			// level: the levels are the same, the queue no longer doubles at every diamond
+			queued := make(map[string]struct{})
 			for i := 0; i < sz; i++ {
 				node := queue.Front()
 				queue.Remove(node)
@@ -333,6 +336,10 @@ func getSubjectHierarchyMap(policies [][]string) (map[string]int, error) {
 				subjectHierarchyMap[nodeValue] = lv
 				if _, ok := policyMap[nodeValue]; ok {
 					for _, child := range policyMap[nodeValue] {
+						if _, ok := queued[child]; ok {
+							continue
+						}
+						queued[child] = struct{}{}
 						queue.PushBack(child)
 					}
 				}
